@@ -168,6 +168,11 @@ def main():
     a = ap.parse_args()
     pid, tier = a.pid, a.tier
     seed = int(os.environ.get("VERIF_SEED", "1"))
+    # two runs of one property (quick and thorough started together) share scratch directories: the second waits for the first
+    import fcntl
+    os.makedirs(os.path.join(VERIF, ".cache"), exist_ok=True)
+    _run_lock = open(os.path.join(VERIF, ".cache", "run-%s.lock" % pid), "w")
+    fcntl.flock(_run_lock, fcntl.LOCK_EX)
     t0 = time.time()
     mod = importlib.import_module("prop_" + pid)
     os.makedirs(os.path.join(VERIF, "evidence"), exist_ok=True)
